@@ -131,3 +131,6 @@ Fixpoint insert_c (x : cnd) (l : list cnd) : list cnd :=
   end.
 (* fold from the left so that equal keys keep their input order *)
 Definition isort_c (l : list cnd) : list cnd := fold_left (fun acc x => insert_c x acc) l [].
+
+(* the value of maxmatch when the caller does not pass it (Matcher.match and HTM.match: maxmatch=1) *)
+Definition default_maxmatch : Z := 1.
